@@ -291,6 +291,8 @@ func runC09(w *World, c *Check) {
 				var cause ssa.Value
 				if call, ok := errV.(*ssa.Call); ok && strings.HasPrefix(fa.CalleeName(call), "krberror.Errorf") && len(call.Call.Args) > 0 {
 					cause = call.Call.Args[0]
+				} else if call, ok := errV.(*ssa.Call); ok && wrappedCause(call, 0) != nil {
+					cause = wrappedCause(call, 0) // wrapped inside a helper introduced later
 				} else {
 					cause = errV // returned as itself
 				}
@@ -327,4 +329,54 @@ func condAbout(cond ssa.Value, ta *ssa.TypeAssert) bool {
 		return e0 != nil && (derivesFrom(b.X, e0) || derivesFrom(b.Y, e0))
 	}
 	return false
+}
+
+// wrappedCause: call is a call of a new helper (see newHelper) every return of which is
+// krberror.Errorf(p, …) (or p itself) for one and the same parameter p: returns the argument passed
+// for p. nil otherwise.
+func wrappedCause(call *ssa.Call, depth int) ssa.Value {
+	g := call.Call.StaticCallee()
+	if g == nil || !newHelper(g) || depth > 2 || g.Signature.Results().Len() != 1 {
+		return nil
+	}
+	var param *ssa.Parameter
+	n := 0
+	for _, b := range g.Blocks {
+		ret, ok := lastInstr(b).(*ssa.Return)
+		if !ok || b == g.Recover {
+			continue
+		}
+		v := RetResults(ret)[0]
+		if mi, isMI := v.(*ssa.MakeInterface); isMI {
+			v = mi.X
+		}
+		var c ssa.Value
+		if inner, isCall := v.(*ssa.Call); isCall {
+			if f := inner.Call.StaticCallee(); f != nil && strings.HasPrefix(calleeName(f), "krberror.Errorf") && len(inner.Call.Args) > 0 {
+				c = inner.Call.Args[0]
+			} else if w := wrappedCause(inner, depth+1); w != nil {
+				c = w
+			}
+		} else {
+			c = v
+		}
+		if mi, isMI := c.(*ssa.MakeInterface); isMI {
+			c = mi.X
+		}
+		p, isP := c.(*ssa.Parameter)
+		if !isP || (param != nil && param != p) {
+			return nil
+		}
+		param = p
+		n++
+	}
+	if param == nil || n == 0 {
+		return nil
+	}
+	for i, p := range g.Params {
+		if p == param && i < len(call.Call.Args) {
+			return call.Call.Args[i]
+		}
+	}
+	return nil
 }
